@@ -367,18 +367,8 @@ def gen_unjudged_calls(rnd):
 
 
 def run_unjudged_calls(ns, ctx, case):
-    import warnings
     for call in case.get('before') or ():
-        fn = getattr(ns.convert, call['fn'])
-        ctx.count('unjudged_calls_before_a_judged_one')
-        try:
-            with core.deadline(30), warnings.catch_warnings():
-                warnings.simplefilter('ignore')
-                fn(*call['args'], ell_obj(ns, call['ell']), prj_obj(ns, call['prj']))
-        except core.DidNotReturn:
-            ctx.count('unjudged_call_did_not_return_in_30s')
-        except Exception as e:
-            ctx.count('unjudged_call_raised:' + type(e).__name__)
+        core.unjudged(ctx, getattr(ns.convert, call['fn']), *call['args'], ell_obj(ns, call['ell']), prj_obj(ns, call['prj']))
 
 
 def judge_forward(ns, ctx, case, aspects):
